@@ -155,7 +155,12 @@ pub fn compare_with_model(ra: &ReadAll, model: &[ModelEntry], comment: &[u8]) ->
         if o.dos != m.dos {
             return Err(format!("entry {i}: timestamp words {:04x?} != written {:04x?}", o.dos, m.dos));
         }
-        if o.mode != Some(m.mode) {
+        if m.raw_copy {
+            // a raw copy carries the permission bits (file-type bits are not part of the claim)
+            if m.mode & 0o777 != 0 && o.mode.map(|x| x & 0o777) != Some(m.mode & 0o777) {
+                return Err(format!("entry {i}: raw copy permission bits {:?} != source {:#o}", o.mode.map(|x| format!("{x:#o}")), m.mode & 0o777));
+            }
+        } else if o.mode != Some(m.mode) {
             return Err(format!("entry {i}: unix_mode {:?} != expected {:#o}", o.mode.map(|x| format!("{x:#o}")), m.mode));
         }
         if o.size != m.content.len() as u64 {
